@@ -199,8 +199,10 @@ def evidence(res, coverage_extra=None):
         "assumptions": res.assumptions, "wall_s": round(time.time() - res.t0, 2),
         "violations": len(res.violations),
     }
-    os.makedirs(os.path.join(VERIF, "evidence"), exist_ok=True)
-    with open(os.path.join(VERIF, "evidence", res.pid + ".json"), "w") as f:
+    # runs against a scratch copy of the repository (PYVC_REPO set: mutation experiments) never touch the evidence directory
+    edir = "evidence" if REPO == "/repo" else os.path.join(".cache", "evidence_scratch")
+    os.makedirs(os.path.join(VERIF, edir), exist_ok=True)
+    with open(os.path.join(VERIF, edir, res.pid + ".json"), "w") as f:
         json.dump(doc, f, indent=1, default=str)
     return doc
 
